@@ -21,7 +21,7 @@ PROPS_PRE = {
 }
 
 PROPS = dict(PROPS_PRE)
-for _pid, _scn in [('C03','C03'),('C16','C16'),('C13','C13'),('C19','C19'),('C17','C17'),('C18','C18'),('C04','C04'),('C09','C09'),('C08','C08'),('C14','C14'),('C05','C05'),('C06','C06'),('C07','C07'),('C10','C10'),('C11','C11'),('C12','C12'),('C15','C15')]:
+for _pid, _scn in [('C20','C20'),('C03','C03'),('C16','C16'),('C13','C13'),('C19','C19'),('C17','C17'),('C18','C18'),('C04','C04'),('C09','C09'),('C08','C08'),('C14','C14'),('C05','C05'),('C06','C06'),('C07','C07'),('C10','C10'),('C11','C11'),('C12','C12'),('C15','C15')]:
     PROPS[_pid] = dict(level='exploration', rule=NONTRIVIAL, assumptions=COMMON_ASSUMPTIONS,
                        legs=legs(_scn, 6000, 60, 400000, 1500), reports=[_pid])
 
@@ -37,6 +37,8 @@ add_leg('C13', 'C13e', 3000, 60, 200000, 900)
 PROPS['C03']['legs']['quick'].append(dict(scenario='C03', runs=1600, budget=60, tag='sweep', params={'c03_sweep': 1}))
 PROPS['C03']['legs']['thorough'].append(dict(scenario='C03', runs=64000, budget=900, tag='sweep', params={'c03_sweep': 1}))
 add_leg('C11', 'C11h', 320, 60, 20000, 1500)
+add_leg('C20', 'D_deadline_two_readers', 1, 10, 1, 10)
+add_leg('C20', 'D_write_deadline_moved', 400, 30, 40000, 600)
 add_leg('C16', 'C16r', 4000, 60, 300000, 1200)
 add_leg('C16', 'D_seq_shift', 1, 10, 1, 10)
 add_leg('C16', 'C16w', 48, 120, 4000, 1800)
@@ -149,6 +151,13 @@ MANIFEST_TEXT.update({
                 note=SIM_NOTE + ' The wire monitors of the other properties are not attached in these runs (the adversary forges their ground truth); the twin-run comparison planned in the design was replaced by the end-to-end oracle because an inert packet may legitimately change timing and hence the delivery order of unordered streams.'),
 })
 
+MANIFEST_TEXT.update({
+    'C20': dict(design_ref='DESIGN.md §5 C20',
+                technique='deterministic simulation: seeded programs of concurrent API calls (2-10 client tasks on shared Association / Stream objects) under the token scheduler with task switches at every lock, wake-up and channel operation; lock-table deadlock detection, every-call-returns oracle, lock-free callback entry, FIFO linearizability of each ordered stream direction checked with porcupine',
+                text='Seeded exploration: up to 5 client tasks per endpoint run programs of 3-16 calls (WriteSCTP and ReadSCTP on the same streams from several tasks, read / write deadlines set and moved, reliability parameters, buffered-amount getters, threshold and callback installation with a callback that calls back into stream and association, statistics getters, ActiveHeartbeat, SetMaxMessageSize, AcceptStream; in a third of the runs Stream.Close, Shutdown with a context, Close and Abort fired concurrently at the end) while traffic, loss and timers are active. Oracles: no lock cycle among parked tasks, every call returns (after both associations are closed at the latest), callbacks entered with no instrumented lock held, no panic, no library goroutine left after Close; per stream direction no message altered, duplicated, delivered after a failed write or - when nothing was closed - lost; the invoke / return history of successful writes and reads of every ordered direction must be linearizable as a FIFO queue (porcupine, 20 s budget, timeouts counted, never reported). Two defects found and fixed (F12, F13), kept under watch by directed legs. The data-race clause is not decided by this check (see not-decided note in DESIGN.md). Evidence, not proof.',
+                note=SIM_NOTE),
+})
+
 # properties whose check is not built yet (kept current as the work proceeds)
 NOT_BUILT = {pid: 'check not built yet in this session (work in progress, see DESIGN.md §10)' for pid in
-             ['C20']}
+             []}
